@@ -7,7 +7,7 @@ open Usid Usid.Grp
     created name is `<base>_` followed by the zero-padded number that is one more than the highest number
     used for exactly that prefix (0 if none); it was absent; and nothing else changes. -/
 theorem fresh_monotone (par : Parent) (base : Str) (hb : base ≠ []) :
-    ∃ n, createIndexed par base = .ok (par ++ [⟨withUnderscore base ++ fmt03 n, .group, none, none⟩],
+    ∃ n, createIndexed par base = .ok (par ++ [⟨withUnderscore base ++ fmt03 n, .group, none, none, none⟩],
                                         withUnderscore base ++ fmt03 n) ∧
       withUnderscore base ++ fmt03 n ∉ names par ∧
       (∀ e ∈ par, ∀ k, indexOf (withUnderscore base) e.name = some k → k < n) ∧
@@ -16,14 +16,15 @@ theorem fresh_monotone (par : Parent) (base : Str) (hb : base ≠ []) :
     (nextIndex_spec _ par).1, (nextIndex_spec _ par).2⟩
 
 /-- The same for results groups `<dataset>-<tool>_NNN` (with '-' in the tool name replaced by '_'). -/
-theorem fresh_monotone_results (par : Parent) (d t : Str) (same : Bool) :
-    ∃ n, createResults par d t same =
-        .ok (par ++ [⟨resultsPrefix d t ++ fmt03 n, .group, some (normTool t), if same then some d else none⟩],
+theorem fresh_monotone_results (par : Parent) (d t : Str) (same : Bool) (sid : Str) :
+    ∃ n, createResults par d t same sid =
+        .ok (par ++ [⟨resultsPrefix d t ++ fmt03 n, .group, some (normTool t), if same then some d else none,
+                      if same then some sid else none⟩],
              resultsPrefix d t ++ fmt03 n) ∧
       resultsPrefix d t ++ fmt03 n ∉ names par ∧
       (∀ e ∈ par, ∀ k, indexOf (resultsPrefix d t) e.name = some k → k < n) ∧
       (n = 0 ∨ ∃ e ∈ par, indexOf (resultsPrefix d t) e.name = some (n - 1)) :=
-  ⟨nextIndex (resultsPrefix d t) par, createResults_ok par d t same, fresh _ par,
+  ⟨nextIndex (resultsPrefix d t) par, createResults_ok par d t same sid, fresh _ par,
     (nextIndex_spec _ par).1, (nextIndex_spec _ par).2⟩
 
 /-- "Exactly that base": a sibling name carries an index for at most one underscore-terminated base, so
@@ -63,9 +64,9 @@ theorem history_all_succeed (ops : List Op) (par : Parent) (hv : ∀ op ∈ ops,
       rcases List.mem_cons.mp ho with rfl | ho
       · exact ⟨_, rfl⟩
       · exact this.1 o ho
-    | results d t s =>
-      have hok := createResults_ok par d t s
-      have hnd' : (names (par ++ [resEntry par d t s])).Nodup := by
+    | results d t s sid =>
+      have hok := createResults_ok par d t s sid
+      have hnd' : (names (par ++ [resEntry par d t s sid])).Nodup := by
         simp only [names, List.map_append, List.map_cons, List.map_nil]
         exact List.nodup_append.mpr ⟨hnd, by simp, by
           intro a ha b' hb'; simp at hb'; subst hb'; intro h; subst h; exact fresh _ par ha⟩
@@ -101,20 +102,45 @@ theorem split_unique {α : Type} (c : α) : ∀ (l1 l2 r1 r2 : List α), c ∉ l
       (fun hm => h2 (List.mem_cons_of_mem _ hm)) h.2
     exact ⟨by rw [h.1, this.1], this.2⟩
 
+theorem name_inj : ∀ (par : Parent), (names par).Nodup → ∀ a ∈ par, ∀ b ∈ par, a.name = b.name → a = b
+  | [], _, a, ha, _, _, _ => by simp at ha
+  | x :: xs, h, a, ha, b, hb, hab => by
+    unfold names at h
+    rw [List.map_cons, List.nodup_cons] at h
+    rcases List.mem_cons.mp ha with rfl | ha'
+    · rcases List.mem_cons.mp hb with rfl | hb'
+      · rfl
+      · exact absurd (List.mem_map.mpr ⟨b, hb', hab.symm⟩) h.1
+    · rcases List.mem_cons.mp hb with rfl | hb'
+      · exact absurd (List.mem_map.mpr ⟨a, ha', hab⟩) h.1
+      · exact name_inj xs h.2 a ha' b hb' hab
+
 /-- Looking up (dataset, tool) returns exactly the groups created for that pair: a group created for
-    `(d', t')` is found by the look-up for `(d, t)` iff `d' = d` and the (normalised) tool names agree —
-    however the names overlap as prefixes or substrings.  (Dataset names without '-'.) -/
+    `(d', t')` is found by the look-up for `(d, t)` iff `d' = d`, the (normalised) tool names agree - however
+    the names overlap as prefixes or substrings - and, when the look-up happens in the file of the dataset, the
+    group does not record ANOTHER dataset (one that merely carries the same name) as its source.
+    (Dataset names without '-'.) -/
 theorem lookup_exact (par : Parent) (d t d' t' : Str) (n : Nat) (hd : '-' ∉ d) (hd' : '-' ∉ d')
-    (e : Entry) (he : e ∈ par) (hk : e.kind = .group) (hname : e.name = resultsPrefix d' t' ++ fmt03 n) :
-    e.name ∈ findResults par d t ↔ (d' = d ∧ normTool t' = normTool t) := by
+    (same : Bool) (sid : Str)
+    (e : Entry) (he : e ∈ par) (hk : e.kind = .group) (hname : e.name = resultsPrefix d' t' ++ fmt03 n)
+    (hnd : (names par).Nodup) :
+    e.name ∈ findResults par d t same sid ↔
+      (d' = d ∧ normTool t' = normTool t ∧ ¬ (same = true ∧ e.sourceId.isSome = true ∧ e.sourceId ≠ some sid)) := by
+  -- entries are identified by their names
+  have huniq : ∀ e2 ∈ par, e2.name = e.name → e2 = e := by
+    intro e2 he2 hn
+    exact name_inj par hnd e2 he2 e he hn
   constructor
   · intro h
     unfold findResults at h
     obtain ⟨e2, he2, hn2⟩ := List.mem_map.mp h
+    have hmem := (List.mem_filter.mp he2).1
     have hf := (List.mem_filter.mp he2).2
-    simp only [Bool.and_eq_true, decide_eq_true_eq, Option.isSome_iff_exists] at hf
-    obtain ⟨_, k, hk2⟩ := hf
-    rw [hn2, hname] at hk2
+    have he2e : e2 = e := huniq e2 hmem hn2
+    subst he2e
+    simp only [Bool.and_eq_true, decide_eq_true_eq, Option.isSome_iff_exists, Bool.not_eq_true'] at hf
+    obtain ⟨⟨_, k, hk2⟩, hsrc⟩ := hf
+    rw [hname] at hk2
     have h1 : HasPrefixIndex (resultsPrefix d t) (resultsPrefix d' t' ++ fmt03 n) :=
       hasPrefixIndex_of_indexOf _ _ _ hk2
     have h2 : HasPrefixIndex (resultsPrefix d' t') (resultsPrefix d' t' ++ fmt03 n) :=
@@ -125,15 +151,32 @@ theorem lookup_exact (par : Parent) (d t d' t' : Str) (n : Nat) (hd : '-' ∉ d)
     unfold resultsPrefix at heq
     simp only [List.append_assoc, List.singleton_append] at heq
     have := split_unique '-' d d' _ _ hd hd' heq
-    refine ⟨this.1.symm, ?_⟩
-    have h3 := this.2
-    exact (List.append_cancel_right h3).symm
-  · rintro ⟨rfl, ht⟩
+    refine ⟨this.1.symm, ?_, ?_⟩
+    · have h3 := this.2
+      exact (List.append_cancel_right h3).symm
+    · rintro ⟨hs, hsome, hne⟩
+      rw [hs] at hsrc
+      have : (e2.sourceId.isSome && (e2.sourceId != some sid)) = true := by
+        simp [hsome, hne]
+      simp [this] at hsrc
+  · rintro ⟨rfl, ht, hsrc⟩
     unfold findResults
     refine List.mem_map.mpr ⟨e, List.mem_filter.mpr ⟨he, ?_⟩, rfl⟩
     have : resultsPrefix d' t = resultsPrefix d' t' := by unfold resultsPrefix; rw [ht]
-    simp only [Bool.and_eq_true, decide_eq_true_eq, hk, true_and, this, hname, indexOf_fmt]
-    rfl
+    simp only [Bool.and_eq_true, decide_eq_true_eq, hk, true_and, this, hname, indexOf_fmt, Bool.not_eq_true']
+    refine ⟨rfl, ?_⟩
+    cases hs : same with
+    | false => simp
+    | true =>
+      cases hso : e.sourceId with
+      | none => simp
+      | some x =>
+        by_cases hx : x = sid
+        · simp [hx]
+        · exfalso
+          apply hsrc
+          refine ⟨hs, by simp [hso], ?_⟩
+          rw [hso]; intro hh; exact hx (Option.some.inj hh)
 
 theorem normTool_no_dash (t : Str) : '-' ∉ normTool t := by
   unfold normTool
@@ -170,22 +213,23 @@ theorem find_new (par : Parent) (e : Entry) (h : e.name ∉ names par) :
 /-- Provenance: a results group records its (normalised) tool and, within one file, its source; and the
     source dataset is recovered from it - through the recorded source wherever in the file the group was put,
     and through the group's name when it sits next to its source (e.g. a group in another file's copy). -/
-theorem provenance (par : Parent) (d t : Str) (same : Bool) (hd : '-' ∉ d) :
-    ∃ par' name, createResults par d t same = .ok (par', name) ∧
-      (∃ e ∈ par', e.name = name ∧ e.tool = some (normTool t) ∧ e.source = (if same then some d else none)) ∧
+theorem provenance (par : Parent) (d t : Str) (same : Bool) (sid : Str) (hd : '-' ∉ d) :
+    ∃ par' name, createResults par d t same sid = .ok (par', name) ∧
+      (∃ e ∈ par', e.name = name ∧ e.tool = some (normTool t) ∧ e.source = (if same then some d else none) ∧
+        e.sourceId = (if same then some sid else none)) ∧
       (same = true → getSource par' name = .ok d) ∧
       (∀ src, par.find? (fun e => e.name = d) = some src → src.kind = .dataset → getSource par' name = .ok d) := by
-  refine ⟨_, _, createResults_ok par d t same, ⟨resEntry par d t same, by simp, rfl, rfl, rfl⟩, ?_, ?_⟩
+  refine ⟨_, _, createResults_ok par d t same sid, ⟨resEntry par d t same sid, by simp, rfl, rfl, rfl, rfl⟩, ?_, ?_⟩
   · intro hs
     subst hs
     unfold getSource
-    have := find_new par (resEntry par d t true) (fresh _ par)
+    have := find_new par (resEntry par d t true sid) (fresh _ par)
     simp only [resEntry] at this ⊢
     rw [this]
     rfl
   · intro src hsrc hkind
     unfold getSource
-    have hf := find_new par (resEntry par d t same) (fresh _ par)
+    have hf := find_new par (resEntry par d t same sid) (fresh _ par)
     simp only [resEntry] at hf ⊢
     rw [hf]
     cases same with
@@ -210,8 +254,8 @@ theorem provenance (par : Parent) (d t : Str) (same : Bool) (hd : '-' ∉ d) :
       rw [hs]
       simp only [List.find?_append, hsrc, Option.some_or, hkind, if_true]
 
-example : (createIndexed [⟨"A_B_000".toList, .group, none, none⟩, ⟨"A_A_005".toList, .group, none, none⟩,
-    ⟨"A_001".toList, .dataset, none, none⟩] "A".toList).toOption.map (fun r => String.ofList r.2) = some "A_002" := by
+example : (createIndexed [⟨"A_B_000".toList, .group, none, none, none⟩, ⟨"A_A_005".toList, .group, none, none, none⟩,
+    ⟨"A_001".toList, .dataset, none, none, none⟩] "A".toList).toOption.map (fun r => String.ofList r.2) = some "A_002" := by
   decide
 
 end Usid.C13
